@@ -127,15 +127,30 @@ fn main() {
                         |id: &CommitId| id,
                     )
                     .unwrap();
+                    // the same with one branch prioritized
+                    let prio_s = if raw.is_empty() {
+                        "None".to_string()
+                    } else {
+                        let x = raw[rng.usize(raw.len())].0.clone();
+                        let mut tg = TopoGroupedGraph::new(
+                            futures::stream::iter(raw.clone().into_iter().map(Ok::<_, std::convert::Infallible>)),
+                            |id: &CommitId| id,
+                        );
+                        tg.prioritize_branch(x.clone());
+                        let out: Vec<(CommitId, Vec<GraphEdge<CommitId>>)> =
+                            tg.stream().map(|n| n.unwrap()).collect::<Vec<_>>().block_on();
+                        format!("(Some ({}, {}))", pos[&x], render(&out, false))
+                    };
                     let topo_s = render(&topo, false);
                     let rev_s = render(&reversed, false);
                     walks.push(format!(
-                        "(mk_walk {} {} {} (Some {}) (Some {}))",
+                        "(mk_walk {} {} {} (Some {}) (Some {}) {})",
                         dagrepo::coq_nats(&shown),
                         jjv::coq::b(skip),
                         stream_s,
                         topo_s,
-                        rev_s
+                        rev_s,
+                        prio_s
                     ));
                 }
                 (g, walks, stats)
